@@ -416,3 +416,21 @@ def depfile(pid, tier, replay):
         return report(pid, found, known_hits)
     finally:
         shutil.rmtree(wd, ignore_errors=True)
+
+
+@reg("C06")
+def limits(pid, tier, replay):
+    if replay:
+        return engine.engine_replay(pid, replay)
+    fams = _fams([dict(fam="pools", K=2, CH=1), dict(fam="jobs", K=2, CH=1), dict(fam="intr", K=2, CH=2), dict(fam="sched", K=4, CH=1)],
+                 [dict(fam="pools", K=12, CH=1), dict(fam="jobs", K=12, CH=1), dict(fam="intr", K=10, CH=4), dict(fam="sched", K=40, CH=1), dict(fam="fail", K=9, CH=10)], tier)
+    return engine.engine_check(pid, fams, tier, maxruns=24 if tier == "quick" else 400)
+
+
+@reg("C07")
+def crashes(pid, tier, replay):
+    if replay:
+        return engine.engine_replay(pid, replay)
+    fams = _fams([dict(fam="crash", K=2, CH=2), dict(fam="intr", K=3, CH=2)],
+                 [dict(fam="crash", K=12, CH=6), dict(fam="intr", K=12, CH=6)], tier)
+    return engine.engine_check(pid, fams, tier, maxruns=12 if tier == "quick" else 100)
